@@ -3,6 +3,10 @@ from .runner import M
 D = "src/allmydata/dirnode.py"
 NM = "src/allmydata/nodemaker.py"
 UN = "src/allmydata/unknown.py"
+MF = "src/allmydata/mutable/filenode.py"
+IF = "src/allmydata/immutable/filenode.py"
+LIT = "src/allmydata/immutable/literal.py"
+BL = "src/allmydata/blacklist.py"
 
 ENTRY = ("            entry = b\"\".join([netstring(name.encode(\"utf-8\")),\n"
          "                             netstring(strip_prefix_for_ro(ro_uri, deep_immutable)),\n"
@@ -150,6 +154,85 @@ MUTANTS = [
       "                if given_ro_uri.startswith(ALLEGED_IMMUTABLE_PREFIX):\n"
       "                    self.ro_uri = given_ro_uri\n                else:\n"
       "                    self.ro_uri = ALLEGED_READONLY_PREFIX + given_ro_uri\n", "C19.6"),
+    # ---- C19.7 is_allowed_in_immutable_directory() == deep-immutable, per node class
+    M("dirnode-allowed-if-readonly", D,                      # seeded C19-B
+      "        return not self._node.is_mutable()\n", "        return self.is_readonly()\n", "C19.7"),
+    M("dirnode-allowed-if-immutable-or-readonly", D,
+      "        return not self._node.is_mutable()\n",
+      "        return not self._node.is_mutable() or self._node.is_readonly()\n", "C19.7"),
+    M("dirnode-allowed-early-return-for-readonly", D,
+      "        return not self._node.is_mutable()\n",
+      "        if self._node.is_readonly():\n            return True\n        return not self._node.is_mutable()\n", "C19.7"),
+    M("mutable-filenode-allowed-if-readonly", MF,
+      "        return not self._uri.is_mutable()\n", "        return self._uri.is_readonly()\n", "C19.7"),
+    M("mutable-filenode-always-allowed", MF,
+      "        return not self._uri.is_mutable()\n", "        return True\n", "C19.7"),
+    M("unknown-allowed-with-write-cap", UN,
+      "        return not self.error and not self.rw_uri\n", "        return not self.error\n", "C19.7"),
+    M("unknown-allowed-with-error", UN,
+      "        return not self.error and not self.rw_uri\n", "        return not self.rw_uri\n", "C19.7"),
+    M("unknown-never-allowed", UN,
+      "        return not self.error and not self.rw_uri\n", "        return False\n", "C19.7"),
+    M("chk-filenode-not-allowed", IF,
+      "    def is_allowed_in_immutable_directory(self):\n        return True\n",
+      "    def is_allowed_in_immutable_directory(self):\n        return False\n", "C19.7"),
+    M("literal-not-allowed", LIT,
+      "    def is_allowed_in_immutable_directory(self):\n        return True\n",
+      "    def is_allowed_in_immutable_directory(self):\n        return self.is_mutable()\n", "C19.7"),
+    M("prohibited-node-always-allowed", BL,
+      "        return self.wrapped_node.is_allowed_in_immutable_directory()\n", "        return True\n", "C19.7"),
+    M("prohibited-node-allowed-if-readonly", BL,
+      "        return self.wrapped_node.is_allowed_in_immutable_directory()\n",
+      "        return self.wrapped_node.is_readonly()\n", "C19.7"),
+    M("benign-dirnode-allowed-via-own-is-mutable", D,
+      "        return not self._node.is_mutable()\n", "        return not self.is_mutable()\n", None),
+    M("benign-dirnode-allowed-hoisted", D,
+      "        return not self._node.is_mutable()\n",
+      "        mutable = self._node.is_mutable()\n        if mutable:\n            return False\n        return True\n", None),
+    M("benign-dirnode-allowed-delegates", D,
+      "        return not self._node.is_mutable()\n", "        return self._node.is_allowed_in_immutable_directory()\n", None),
+    M("benign-dirnode-allowed-redundant-readonly", D,    # immutable implies read-only
+      "        return not self._node.is_mutable()\n",
+      "        return self._node.is_readonly() and not self._node.is_mutable()\n", None),
+    M("benign-unknown-allowed-early-return", UN,
+      "        return not self.error and not self.rw_uri\n",
+      "        if self.error is not None:\n            return False\n        return not self.rw_uri\n", None),
+    M("benign-unknown-allowed-de-morgan", UN,
+      "        return not self.error and not self.rw_uri\n", "        return not (self.error or self.get_write_uri())\n", None),
+    M("benign-mutable-filenode-never-allowed", MF,       # an IMutableFileNode is always mutable
+      "        return not self._uri.is_mutable()\n", "        return False\n", None),
+    M("benign-prohibited-node-allowed-via-is-mutable", BL,
+      "        return self.wrapped_node.is_allowed_in_immutable_directory()\n",
+      "        return not self.wrapped_node.is_mutable()\n", None),
+    # ---- C19.8 is_mutable() of the node classes
+    M("dirnode-mutable-means-writeable", D,
+      "    def is_mutable(self):\n        return self._node.is_mutable()\n",
+      "    def is_mutable(self):\n        return not self._node.is_readonly()\n", "C19.8"),
+    M("dirnode-mutable-and-allowed-both-by-readonly", D,
+      "    def is_mutable(self):\n        return self._node.is_mutable()\n",
+      "    def is_mutable(self):\n        return not self.is_readonly()\n", "C19.8",
+      edits=[(D, "        return not self._node.is_mutable()\n", "        return not self.is_mutable()\n")]),
+    M("dirnode-mutable-inverted", D,
+      "    def is_mutable(self):\n        return self._node.is_mutable()\n",
+      "    def is_mutable(self):\n        return not self._node.is_mutable()\n", "C19.8",
+      edits=[(D, "    def is_allowed_in_immutable_directory(self):\n        return not self._node.is_mutable()\n",
+              "    def is_allowed_in_immutable_directory(self):\n        return not self.is_mutable()\n")]),
+    M("chk-filenode-claims-mutable", IF,
+      "    def is_mutable(self):\n        return False\n\n    def is_readonly(self):",
+      "    def is_mutable(self):\n        return True\n\n    def is_readonly(self):", "C19.8",
+      edits=[(IF, "    def is_allowed_in_immutable_directory(self):\n        return True\n",
+              "    def is_allowed_in_immutable_directory(self):\n        return False\n")]),
+    M("mutable-filenode-mutable-means-writeable", MF,
+      "    def is_mutable(self):\n        return self._uri.is_mutable()\n",
+      "    def is_mutable(self):\n        return not self._uri.is_readonly()\n", "C19.8",
+      edits=[(MF, "        return not self._uri.is_mutable()\n", "        return not self.is_mutable()\n")]),
+    M("benign-dirnode-mutable-hoisted", D,
+      "    def is_mutable(self):\n        return self._node.is_mutable()\n",
+      "    def is_mutable(self):\n        m = self._node.is_mutable()\n        return bool(m)\n", None),
+    M("benign-mutable-filenode-always-mutable", MF,
+      "    def is_mutable(self):\n        return self._uri.is_mutable()\n",
+      "    def is_mutable(self):\n        return True\n", None,
+      edits=[(MF, "        return not self._uri.is_mutable()\n", "        return False\n")]),
     # ---- benign
     M("benign-ivlen-symbolic", D,
       "        salt = encwrcap[:16]\n        crypttext = encwrcap[16:-32]\n",
@@ -179,4 +262,7 @@ MUTANTS = [
     # ---- vanished anchor
     M("vanish-unpack", D,
       "    def _unpack_contents(self, data):", "    def _unpack_contentsX(self, data):", "ANALYSIS-ERROR"),
+    M("vanish-dirnode-allowed", D,
+      "    def is_allowed_in_immutable_directory(self):\n        return not self._node.is_mutable()\n",
+      "    def is_allowed_in_immutable_directoryX(self):\n        return not self._node.is_mutable()\n", "ANALYSIS-ERROR"),
 ]
